@@ -75,3 +75,80 @@ pub fn run_history(case: &Case, mut mon: Option<&mut Mon>, keep_pre: bool) -> Hi
     out.post = db.world.clone();
     out
 }
+
+// ------------------------------------------------------------------------------------------------
+// lock-step trace of the real interpreter (one record per dispatched instruction)
+// ------------------------------------------------------------------------------------------------
+use crate::refevm::{TraceRec, TRACE_CAP};
+
+#[derive(Default)]
+pub struct TraceInsp {
+    pub trace: Vec<TraceRec>,
+}
+
+impl<DB: Database> revm::Inspector<DB> for TraceInsp {
+    fn step(&mut self, interp: &mut revm::interpreter::Interpreter, ctx: &mut revm::EvmContext<DB>) {
+        if self.trace.len() < TRACE_CAP {
+            let st = interp.stack.data();
+            self.trace.push(TraceRec {
+                depth: ctx.journaled_state.depth() as u32,
+                pc: interp.program_counter() as u64,
+                op: interp.current_opcode(),
+                gas: interp.gas.remaining(),
+                stack_len: st.len() as u32,
+                top: st.last().copied().unwrap_or_default(),
+                mem_len: interp.shared_memory.len() as u64,
+            });
+        }
+    }
+}
+
+/// the real Evm's instruction trace for the first transaction of a case (fresh database)
+pub fn trace_real(case: &Case) -> Result<Vec<TraceRec>, PanicInfo> {
+    let mut db = RefDB::new(case.world.clone(), case.spec);
+    let mut insp = TraceInsp::default();
+    guarded(|| {
+        let mut evm = Evm::builder()
+            .with_db(&mut db)
+            .with_external_context(&mut insp)
+            .with_spec_id(case.spec)
+            .with_env(make_env(case.spec, &case.block, &case.txs[0]))
+            .append_handler_register(inspector_handle_register)
+            .build();
+        let _ = evm.transact();
+    })?;
+    Ok(insp.trace)
+}
+
+/// first difference between the reference's and the real interpreter's traces:
+/// (index, field, reference record, real record)
+pub fn trace_diff(r: &[TraceRec], x: &[TraceRec]) -> Option<(usize, &'static str, Option<TraceRec>, Option<TraceRec>)> {
+    let d0r = r.first().map(|t| t.depth).unwrap_or(0);
+    let d0x = x.first().map(|t| t.depth).unwrap_or(0);
+    for i in 0..r.len().min(x.len()) {
+        let (a, b) = (&r[i], &x[i]);
+        let f = if a.depth - d0r != b.depth.wrapping_sub(d0x) {
+            "depth"
+        } else if a.op != b.op {
+            "opcode"
+        } else if a.pc != b.pc {
+            "pc"
+        } else if a.gas != b.gas {
+            "gas"
+        } else if a.stack_len != b.stack_len {
+            "stack-length"
+        } else if a.top != b.top {
+            "stack-top"
+        } else if a.mem_len != b.mem_len {
+            "memory-size"
+        } else {
+            continue;
+        };
+        return Some((i, f, Some(a.clone()), Some(b.clone())));
+    }
+    if r.len() != x.len() && r.len() < TRACE_CAP && x.len() < TRACE_CAP {
+        let i = r.len().min(x.len());
+        return Some((i, "length", r.get(i).cloned(), x.get(i).cloned()));
+    }
+    None
+}
